@@ -42,7 +42,7 @@ def out(p):
 
 
 def ksort(x):
-    return kore.SortVar('P%s' % x[1]) if x[0] == 'sv' else kore.SortApp('S%s' % x[1])
+    return kore.SortVar('V%s' % x[1]) if x[0] == 'sv' else kore.SortApp('S%s' % x[1])   # sort variable k and element variable k share the name Vk
 
 
 def kterm(x):
